@@ -330,7 +330,23 @@ class C17(Suite):
                 out += ["mul_s:%s %d %d" % (t, a, k), "div_s:%s %d %d" % (t, a * k, k)]
         for a in rng.sample(fin, min(len(fin), 200)):
             out += ["add %d %d" % (a, -a), "sub %d %d" % (a, a), "mul %d 65536" % a, "div %d 65536" % a]
+        # a-b == a+(-b) and commutativity at the overflow boundaries
+        for a, b in gen.sum_boundary_pairs(rng, n // 4) + gen.diff_boundary_pairs(rng, n // 4):
+            out += ["sub %d %d" % (a, b), "add %d %d" % (a, -b), "add %d %d" % (a, b), "add %d %d" % (b, a)]
+        for a, b in gen.prod_boundary_pairs(rng, n // 8):
+            out += ["mul %d %d" % (a, b), "mul %d %d" % (b, a)]
         return out
+    def post(self, res):
+        bad = []
+        for l, r in res.items():
+            fn, tag, a = parse_line(l)
+            if fn == "sub" and tag == "":
+                l2 = "add %d %d" % (a[0], -a[1])
+                if l2 in res and res[l2] != r: bad.append((l, "a-b != a+(-b): %s -> %d, %s -> %d" % (l, r, l2, res[l2])))
+            if fn in ("add", "mul") and tag == "":
+                l2 = "%s %d %d" % (fn, a[1], a[0])
+                if l2 in res and res[l2] != r: bad.append((l, "%s not commutative bit for bit: %s -> %d, %s -> %d" % (fn, l, r, l2, res[l2])))
+        return bad
     # the laws themselves are theorems over the model; the per-operation oracles are those of C01-C03
     def oracle(self, fn, tag, a, r):
         if fn in ("add", "sub"): return C01().oracle(fn, tag, a, r)
@@ -989,6 +1005,11 @@ def c07_ops(rng, pool, scale):
         out.append("fp_to_fixed:f64 %d" % b)
         for x in rng.sample(extreme, 2):
             for f in DOUBLE_OPS2: out.append("%s %d %d" % (f, x, b))
+    for k in [0, 1, 2, 3, 7, 1000, 2**20, 2**31 - 1, 2**31, 2**31 + 1, 2**40] + [rng.randrange(0, 2**41) for _ in range(20 * scale)]:
+        for d in (-1, 0, 1):
+            for base_ in (PIDIV2, 0, PIDIV4, PHI - 1):
+                v = base_ + k * PHI + d
+                if v < 2**62: out += ["tan %d" % v, "tan %d" % (-v), "sin %d" % v, "cos %d" % (-v)]
     ds = {-2**31, -2**31 + 1, 2**31 - 1, -1, -359, -360, -361, 0, 360, 361, 720, 65535, 65536, -65536, -90, -180, -270} | {rng.randrange(-2**31, 2**31) for _ in range(200 * scale)} | set(range(-800, 800, 3))
     for d in sorted(ds): out += ["sin_aprox %d" % d, "cos_aprox %d" % d]
     return out
